@@ -413,3 +413,170 @@ Proof.
   - apply normal64_ge1. lra.
   - constructor; [apply normal64_ge1; lra|]. constructor; [apply normal64_ge1; lra|]. constructor.
 Qed.
+
+(* ================= average_euclidean: a sibling call, a division by the length, a square root ================= *)
+Lemma lookup_sqe : lookup_ir (m_name ir_squared_euclidean) all_metrics_ir = Some ir_squared_euclidean.
+Proof. vm_compute. reflexivity. Qed.
+
+Lemma call_sqe rnd x y :
+  call_fuelR rnd all_metrics_ir Gen.Decorator_gen.decorator_params Gen.Decorator_gen.decorator_body call_depth
+             (m_name ir_squared_euclidean) x y
+  = metric_rnd rnd ir_squared_euclidean x y.
+Proof.
+  unfold call_depth. cbn [call_fuelR]. rewrite lookup_sqe. unfold_metric. reflexivity.
+Qed.
+
+Lemma map2_fst {A B} : forall (x : list A) (y : list B), length x = length y -> map2 (fun a _ => a) x y = x.
+Proof.
+  induction x as [|a x IH]; intros [|b y] L; cbn [length] in L; try discriminate; cbn [map2]; [reflexivity|].
+  f_equal. apply IH. lia.
+Qed.
+
+Lemma map2_snd {A B} : forall (x : list A) (y : list B), length x = length y -> map2 (fun _ b => b) x y = y.
+Proof.
+  induction x as [|a x IH]; intros [|b y] L; cbn [length] in L; try discriminate; cbn [map2]; [reflexivity|].
+  f_equal. apply IH. lia.
+Qed.
+
+Lemma mr_average_euclidean rnd x y : length x = length y ->
+  metric_rnd rnd ir_average_euclidean x y =
+  if Req_EM_T (len x) 0 then None
+  else if Rlt_dec (rnd (rsum rnd (map2 (sqd rnd) x y) / len x)) 0 then None
+       else Some (rnd (R_sqrt.sqrt (rnd (rsum rnd (map2 (sqd rnd) x y) / len x)))).
+Proof.
+  intros L. unfold metric_rnd, evalRnd_wrapped, evalRnd_wrapped_with, wrapR, eval_bodyR.
+  cbn [m_avoid_zero m_body ir_average_euclidean evalSR evalVR].
+  rewrite (oseq_map2_some (fun a _ => a)), (oseq_map2_some (fun _ b => b)), (map2_fst x y L), (map2_snd x y L).
+  cbn [obind2]. change (call_fuelR rnd all_metrics_ir Gen.Decorator_gen.decorator_params Gen.Decorator_gen.decorator_body call_depth _ x y) with (call_fuelR rnd all_metrics_ir Gen.Decorator_gen.decorator_params Gen.Decorator_gen.decorator_body call_depth (m_name ir_squared_euclidean) x y).
+  rewrite call_sqe, mr_squared_euclidean. cbn [obind obind2 binRnd powRnd].
+  destruct (Req_EM_T (len x) 0); reflexivity.
+Qed.
+
+Lemma agree_average_euclidean x y : length x = length y -> Forall fmt64 x -> Forall fmt64 y -> squares_normal x y ->
+  normal64 (rsum rnd64 (map2 (fun a b => rnd64 (rnd64 (a - b) ^ 2)) x y) / len x) ->
+  metric_rnd rnd64 ir_average_euclidean x y = metric_rnd rnd64x ir_average_euclidean x y.
+Proof.
+  intros L Hx Hy Hn Hq. change (fun a b : R => rnd64 (rnd64 (a - b) ^ 2)) with (sqd rnd64) in Hq.
+  rewrite !mr_average_euclidean by exact L.
+  rewrite <- (sqd_agree x y Hx Hy Hn). rewrite <- (rsum_agree64 _ (sqd_fmt x y)).
+  destruct (Req_EM_T (len x) 0); [reflexivity|].
+  rewrite <- (agree64_normal _ Hq).
+  destruct (Rlt_dec (rnd64 (rsum rnd64 (map2 (sqd rnd64) x y) / len x)) 0) as [L0|L0]; [reflexivity|]. f_equal.
+  apply agree64_normal. apply normal64_sqrt; [apply fmt64_rnd64 | exact L0].
+Qed.
+
+Theorem capstone_average_euclidean : forall (x y : list PrimFloat.float) (f : PrimFloat.float),
+  Forall (fun a => ffin a = true) x -> Forall (fun a => ffin a = true) y -> length x = length y -> (1 <= length x)%nat ->
+  (Z.of_nat (length x) <= 2 ^ 53)%Z ->
+  metric_fltc ir_average_euclidean x y = Some f ->
+  Forall (fun d => normal64 (d ^ 2)) (map2 (fun a b => rnd64 (a - b)) (map f2r x) (map f2r y)) ->
+  normal64 (rsum rnd64 (map2 (fun a b => rnd64 (rnd64 (a - b) ^ 2)) (map f2r x) (map f2r y)) / len (map f2r x)) ->
+  Rabs (f2r f - sp_average_euclidean (map f2r x) (map f2r y))
+  <= ((1 + u64) ^ ((length x + 4) / 2 + 1) - 1) * sp_average_euclidean (map f2r x) (map f2r y).
+Proof.
+  intros x y f Fx Fy L N Z E U1 U2.
+  destruct plain_exact_table as (_ & _ & _ & _ & _ & _ & _ & [P C]). destruct b64_table as (_ & _ & _ & B & _).
+  apply (capstone_gen ir_average_euclidean sp_average_euclidean (fun n => ((n + 4) / 2 + 1)%nat) P C B x y f Fx Fy L N Z E).
+  apply agree_average_euclidean; [now rewrite !map_length | apply fmt64_map_f2r | apply fmt64_map_f2r | exact U1 | exact U2].
+Qed.
+
+Lemma ex_sq : map2 (fun a b => rnd64 (rnd64 (a - b) ^ 2)) [0; 3] [4; 1] = [16; 4].
+Proof.
+  cbn [map2].
+  rewrite (rnd64_intR (-4) (0 - 4)) by (lra || now vm_compute).
+  rewrite (rnd64_intR 2 (3 - 1)) by (lra || now vm_compute).
+  rewrite (rnd64_intR 16 ((0 - 4) ^ 2)) by (lra || now vm_compute).
+  rewrite (rnd64_intR 4 ((3 - 1) ^ 2)) by (lra || now vm_compute).
+  repeat f_equal; lra.
+Qed.
+
+Lemma ex_rsum_sq : rsum rnd64 [16; 4] = 20.
+Proof. cbn [rsum fold_left]. rewrite (rnd64_intR 20 (16 + 4)) by (lra || now vm_compute). lra. Qed.
+
+Lemma capstone_nonvacuous_average :
+  exists (x y : list PrimFloat.float) (f : PrimFloat.float),
+    Forall (fun a => ffin a = true) x /\ Forall (fun a => ffin a = true) y /\ length x = length y /\ length x = 2%nat
+    /\ (Z.of_nat (length x) <= 2 ^ 53)%Z
+    /\ metric_fltc ir_average_euclidean x y = Some f
+    /\ Forall (fun d => normal64 (d ^ 2)) (map2 (fun a b => rnd64 (a - b)) (map f2r x) (map f2r y))
+    /\ normal64 (rsum rnd64 (map2 (fun a b => rnd64 (rnd64 (a - b) ^ 2)) (map f2r x) (map f2r y)) / len (map f2r x)).
+Proof.
+  exists ex_x, ex_y.
+  assert (E1 : exists f, metric_fltc ir_average_euclidean ex_x ex_y = Some f) by (vm_compute; eauto).
+  destruct E1 as [f E1]. exists f.
+  destruct ex_vals as [Vx Vy]. rewrite Vx, Vy, ex_sq, ex_rsum_sq, ex_diffs.
+  split; [repeat constructor|]. split; [repeat constructor|]. split; [reflexivity|]. split; [reflexivity|].
+  split; [vm_compute; discriminate|]. split; [exact E1|]. split.
+  - constructor; [apply normal64_ge1; lra|]. constructor; [apply normal64_ge1; lra|]. constructor.
+  - apply normal64_ge1. unfold len. cbn [length INR]. lra.
+Qed.
+
+(* ================= observable forms of the side condition ================= *)
+Lemma fmt64_minnormal : fmt64 (/ 2 ^ 1022).
+Proof.
+  rewrite <- bpow_m1022. apply fmt64_generic. apply generic_format_bpow. unfold FLT_exp. lia.
+Qed.
+
+(* a result above the smallest normal number was not produced by an underflowing rounding *)
+Lemma rnd64_gt_normal t : / 2 ^ 1022 < Rabs (rnd64 t) -> normal64 t.
+Proof.
+  intros H. right. destruct (Rle_or_lt (/ 2 ^ 1022) (Rabs t)) as [G|G]; [exact G|]. exfalso.
+  assert (B : Rabs (rnd64 t) <= / 2 ^ 1022); [|lra].
+  destruct (Rle_or_lt 0 t) as [P|P].
+  - rewrite Rabs_pos_eq in G by exact P. rewrite Rabs_pos_eq by (apply rnd64_nonneg; exact P).
+    rewrite <- fmt64_minnormal. apply rnd64_mono. lra.
+  - rewrite Rabs_left in G by exact P.
+    replace t with (- - t) by ring. rewrite rnd64_odd, Rabs_Ropp.
+    rewrite Rabs_pos_eq by (apply rnd64_nonneg; lra).
+    rewrite <- fmt64_minnormal. apply rnd64_mono. lra.
+Qed.
+
+Theorem capstone_gower_observable : forall (x y : list PrimFloat.float) (f : PrimFloat.float),
+  Forall (fun a => ffin a = true) x -> Forall (fun a => ffin a = true) y -> length x = length y -> (1 <= length x)%nat ->
+  (Z.of_nat (length x) <= 2 ^ 53)%Z ->
+  metric_fltc ir_gower x y = Some f ->
+  / 2 ^ 1022 < f2r f ->
+  Rabs (f2r f - sp_gower (map f2r x) (map f2r y))
+  <= ((1 + u64) ^ (length x + 1) - 1) * sp_gower (map f2r x) (map f2r y).
+Proof.
+  intros x y f Fx Fy L N Z E U. apply capstone_gower; try assumption.
+  destruct plain_exact_table as (_ & _ & _ & [P C] & _).
+  destruct (metric_fltc_refines_plain ir_gower x y f P C Fx Fy L Z E) as [_ R].
+  rewrite mr_gower in R. destruct (Req_EM_T (len (map f2r x)) 0); [discriminate|]. inversion R as [R']. unfold absd in R'.
+  apply rnd64_gt_normal. rewrite R'. apply Rlt_le_trans with (1 := U). apply Rle_abs.
+Qed.
+
+Theorem capstone_non_intersection_observable : forall (x y : list PrimFloat.float) (f : PrimFloat.float),
+  Forall (fun a => ffin a = true) x -> Forall (fun a => ffin a = true) y -> length x = length y -> (1 <= length x)%nat ->
+  (Z.of_nat (length x) <= 2 ^ 53)%Z ->
+  metric_fltc ir_non_intersection x y = Some f ->
+  / 2 ^ 1022 < f2r f ->
+  Rabs (f2r f - sp_non_intersection (map f2r x) (map f2r y))
+  <= ((1 + u64) ^ (length x + 1) - 1) * sp_non_intersection (map f2r x) (map f2r y).
+Proof.
+  intros x y f Fx Fy L N Z E U. apply capstone_non_intersection; try assumption.
+  destruct plain_exact_table as (_ & _ & _ & _ & [P C] & _).
+  destruct (metric_fltc_refines_plain ir_non_intersection x y f P C Fx Fy L Z E) as [_ R].
+  rewrite mr_non_intersection in R. inversion R as [R']. unfold absd in R'.
+  apply rnd64_gt_normal. rewrite R'. apply Rlt_le_trans with (1 := U). apply Rle_abs.
+Qed.
+
+Lemma minnormal_le1 : / 2 ^ 1022 <= 1.
+Proof.
+  assert (H1 : 1 <= 2 ^ 1022) by (apply pow_R1_Rle; lra).
+  rewrite <- Rinv_1. apply Rinv_le_contravar; lra.
+Qed.
+
+Lemma capstone_nonvacuous_observable :
+  exists (x y : list PrimFloat.float) (f1 f2 : PrimFloat.float),
+    Forall (fun a => ffin a = true) x /\ Forall (fun a => ffin a = true) y /\ length x = length y /\ length x = 2%nat
+    /\ (Z.of_nat (length x) <= 2 ^ 53)%Z
+    /\ metric_fltc ir_gower x y = Some f1 /\ / 2 ^ 1022 < f2r f1
+    /\ metric_fltc ir_non_intersection x y = Some f2 /\ / 2 ^ 1022 < f2r f2.
+Proof.
+  exists ex_x, ex_y, 3%float, 3%float.
+  split; [repeat constructor|]. split; [repeat constructor|]. split; [reflexivity|]. split; [reflexivity|].
+  split; [vm_compute; discriminate|].
+  pose proof minnormal_le1 as M. rewrite (f2r_lit 3%float 3 eq_refl).
+  split; [vm_compute; reflexivity|]. split; [lra|]. split; [vm_compute; reflexivity|lra].
+Qed.
